@@ -150,9 +150,13 @@ func (s *scanner) Reset(reader io.ReadSeeker) error {
 	if err != nil {
 		return err
 	}
-	s.sx.Init(reader)
+	// text/scanner reports a failing Read through the same callback as its own complaints, with the
+	// error's text as the message: the reads are watched so that a reader's failure is never taken
+	// for a complaint that may be ignored
+	src := &watchedReader{reader: reader}
+	s.sx.Init(src)
 	s.sx.Error = func(_ *sc.Scanner, msg string) {
-		if msg == "invalid char escape" {
+		if msg == "invalid char escape" && src.failure == nil {
 			// an escape the scanner does not know, such as the \d of a regular
 			// expression, stays in the literal as written
 			return
@@ -163,6 +167,20 @@ func (s *scanner) Reset(reader io.ReadSeeker) error {
 	}
 	s.sx.Mode = sc.ScanIdents | sc.ScanChars | sc.ScanStrings | sc.ScanRawStrings | sc.ScanComments | sc.SkipComments
 	return nil
+}
+
+// watchedReader remembers the first error other than io.EOF that the reader returned
+type watchedReader struct {
+	reader  io.Reader
+	failure error
+}
+
+func (w *watchedReader) Read(p []byte) (n int, err error) {
+	n, err = w.reader.Read(p)
+	if err != nil && err != io.EOF && w.failure == nil {
+		w.failure = err
+	}
+	return
 }
 
 func (s *scanner) Scan() (r rune) {
